@@ -57,6 +57,42 @@ theorem c10_issue_complete (p : Path) (re : Bool) (k : KeyDesc) (hp : p ≠ .ssh
   unfold strong at hs
   simp [hs]
 
+/-- **What is tested is what is signed** (regenerated table + consequence): on each of the six paths
+the expression whose strength is tested is the very expression handed on to the signer (SSH: the
+helper parses its own parameter, the same string the handler gives to `GenSSHCertFileString`; the
+role paths store the tested key in `rvalue.UserPub` and the signer reads `params.UserPub`; the AWS
+signer callback tests and certifies the same `publicKey`).  Hence the key in a certificate is the key
+that was tested: for any upload, however many keys it holds, a certificate carries only a key the
+property allows. -/
+theorem c10_validated_is_signed :
+    KM.Gen.C10.keyFlow =
+      [("ssh".toList, "userPubKey".toList, "userPubKey".toList), ("x509".toList, "userPub".toList, "userPub".toList),
+       ("x509-kubernetes".toList, "userPub".toList, "userPub".toList),
+       ("role-requesting".toList, "userPub".toList, "userPub".toList),
+       ("role-refresh".toList, "userPub".toList, "userPub".toList), ("aws-role".toList, "pub".toList, "pub".toList)] ∧
+    KM.Gen.C10.keyFlow.all (fun r => r.2.1 == r.2.2) = true ∧
+    KM.Gen.C10.roleSignerKeyArg = "params.UserPub".toList ∧
+    KM.Gen.C10.awsSignerFlow = ("publicKey".toList, "publicKey".toList) ∧
+    (∀ p re s k, certifiedWith current p re s s = some k →
+      (∀ cb, k = .ecdsa cb → cb ∈ goCurves) → spec k = true) ∧
+    -- and it matters: a path that tests one key of the upload and signs another certifies a weak key
+    certifiedWith current .ssh true (.key (.rsa 2048 65537)) (.key (.rsa 1024 65537)) = some (.rsa 1024 65537) := by
+  refine ⟨by decide, by decide, by decide, by decide, ?_, by decide⟩
+  intro p re s k h hc
+  unfold certifiedWith at h
+  cases hd : decideWith current p re s with
+  | refuse => simp [hd] at h
+  | issue =>
+    cases s with
+    | unparsable => simp [hd] at h
+    | key k' =>
+      simp only [hd, Option.some.injEq] at h
+      subst h
+      obtain ⟨k'', hk, hspec⟩ := c10_issue p re (.key k') hd
+      injection hk with hk
+      subst hk
+      exact hspec hc
+
 /-- **Paths** (regenerated table): each of the six issuing paths — ssh, x509, x509-kubernetes,
 role-requesting, role-refresh, aws-role — tests key strength (directly or in its parsing helper) in
 a top-level statement that precedes the signing call, and the branch taken for a weak key writes a
